@@ -12,7 +12,7 @@ from kern2 import Snap, area2, cross3, fr_tok
 SPEC = {
     "lean_modules": ["Honeycomb.Props.C13"],
     "required_theorems": ["C13_check_requirements_ok_iff", "C13_shoelace_step", "C13_earclip_area_sum",
-                          "C13_fan_area_sum", "C13_D7_witness", "C13_fan_orientation_partial"],
+                          "C13_fan_area_sum", "C13_fan_star_sees_every_side", "C13_fan_apex_sees_all"],
     "trusted_base": [
         "Lean 4.33 kernel; axioms propext, Classical.choice, Quot.sound only",
         "hand-written model Honeycomb/Model/Kernels/{Geom2,Fan,EarClip}.lean (+ Stm, Map, Ops, Ops2) tied to /repo by the "
@@ -41,7 +41,8 @@ SPEC = {
         "WF preservation through the sew loops and the exact face structure (n-2 triangles with the intended corner darts) of the map "
         "surgery: validated by the oracle on every case, not a theorem",
         "the last remaining triangle of ear clipping has the announced orientation (the code does not test it; follows from simplicity)",
-        "fan orientation is proved only under the hypothesis excluding D7 (the unexamined side); C13_D7_witness shows it is false otherwise",
+        "the first side examined by the fan's star search is only sign-tested by the code (no epsilon test): the strict-orientation "
+        "theorem C13_fan_apex_sees_all carries the non-degeneracy of that one triangle as a hypothesis",
     ],
 }
 
@@ -575,11 +576,6 @@ def dedupe(violations):
 
 
 def matches(known, v):
-    m = known.get("matcher", {})
-    if v.get("kind") != "oracle" or m.get("kind") != "oracle":
-        return False
-    sigs = signatures(v)
-    if "unknown" in sigs or m.get("signature") not in sigs:
-        return False
-    listed = {k["matcher"].get("signature") for k in hv.load_known().get("findings", []) if k["property"] == "C13"}
-    return sigs <= listed
+    """No finding of C13 is open: D7 is repaired (/repo 00af791), so every oracle failure is a VIOLATION.
+    `signatures` is kept only to group identical failures in the report."""
+    return False
